@@ -317,7 +317,15 @@ def duplicate_neighbour_def(rng):
 
 
 def gen_perm_def(rng, cap_n=9):
-    """Mostly valid permutation definitions with small orbits."""
+    """Mostly valid permutation definitions with small orbits (always inside the library's domain, see in_domain)."""
+    for _ in range(100):
+        gd = _gen_perm_def(rng, cap_n)
+        if in_domain(gd):
+            return gd
+    raise RuntimeError("generator produces out-of-domain definitions")
+
+
+def _gen_perm_def(rng, cap_n=9):
     r = rng.random()
     if r < 0.06:
         return deep_directed_def(rng) if rng.random() < 0.7 else full_word_def(rng)[0]
@@ -449,8 +457,21 @@ def gen_mat_def(rng):
     return GDef("mat", gens, central, n=n, m=m, modulo=modulo, tag=f"mat-mod{modulo}")
 
 
+def in_domain(gd):
+    """What the library's own validation demands of a definition (CayleyGraphDef.__post_init__): a generated definition
+    outside it would be a bug of the generator, not of the library, and must never reach a check."""
+    if gd.kind == "perm":
+        n = len(gd.central)
+        return n >= 1 and 0 <= min(gd.central) and max(gd.central) < n and all(sorted(p) == list(range(n)) for p in gd.gens) and len(gd.gens) >= 1
+    return gd.modulo == 0 or (2 <= gd.modulo <= 2**31 and all(0 <= x < gd.modulo for g in gd.gens for x in g))
+
+
 def gen_def(rng, mat_share=0.2):
-    return gen_mat_def(rng) if rng.random() < mat_share else gen_perm_def(rng)
+    for _ in range(100):
+        gd = gen_mat_def(rng) if rng.random() < mat_share else gen_perm_def(rng)
+        if in_domain(gd):
+            return gd
+    raise RuntimeError("generator produces out-of-domain definitions")
 
 
 def min_width(gd):
